@@ -81,6 +81,8 @@ def wiring(chk, cc, qa, tier, rng):
     try:
         res = X.run_single_path(fn, name="C06:wiring")
     except SymError as e:
+        # an undecided guard stops the symbolic run: look at the real code on concrete data before calling it inconclusive
+        replay_wiring(chk, cc, rng, "symbolic run stopped: %s" % e)
         chk.inconclusive("wiring", str(e))
         return
     except Exception as e:
